@@ -193,6 +193,18 @@ def field_constraints(draw, col, n, inside=False):
             c[k] = draw(st.lists(st.sampled_from(REX_POOL),
                                  min_size=draw(st.sampled_from([1, 1, 1, 0])),
                                  max_size=3, unique=True))
+            doubled = [v for v in nn if isinstance(v, str)
+                       and v in ('aa', 'abba', '11', 'abab')]
+            if doubled and draw(st.booleans()):
+                # every other value gets a (grouped) expression of its
+                # own, and the doubled ones are matched only by expressions
+                # with back-references - whose group numbers are their own
+                import re as _re
+                others = sorted(set(v for v in nn if isinstance(v, str)
+                                    and v not in doubled))[:4]
+                c[k] = (['^(%s)$' % _re.escape(v) for v in others]
+                        + [r'^([a-z0-9])\1$', r'^(\w)(\w)\2\1$',
+                           r'^(?P<p>\w\w)(?P=p)$'])
     if atype != 'date' and c.get('type') == 'date' and (
             'min' in c or 'max' in c):
         # "type": "date" makes the loader read min/max as date strings; a
